@@ -128,7 +128,10 @@ def check_invariant(case, res, base, what):
                         sig='C12.removed:%s:%s' % (mode.split('-')[0], case['state']))
     if mode.startswith('json'):
         complete = base.get('complete_outs', base['outs'])
-        if res['outs'] != complete or not complete:
+        # only the files the fault-free run writes are compared: a stale file under another name (the damage
+        # may have changed the entry id the output is named after) is not this run's output
+        got = {k: v for k, v in res['outs'].items() if k in complete}
+        if got != complete or not complete:
             raise Violation('C12.removed-without-output',
                             '%s: the input file was removed but the JSON output is %s (events: %s)'
                             % (what, 'missing' if not res['outs'] else 'incomplete (%d of %d bytes)'
